@@ -7,6 +7,7 @@ mean / Cheng-type weighted std re-derived from the *returned* realisations, repr
 scale invariance and the zero-spread closed form.
 """
 
+import os
 import numpy as np
 
 from ..ctx import biteq, close, maxrel
@@ -24,7 +25,7 @@ RULE = ("layout cases = 4-60 sensors (uniform, clustered, near-collinear, regula
 ASSUMPTIONS = [
     "sensors within 1e-9 x extent of the boundary hull are ambiguous (retained or dropped)",
     "coordinates are relative (magnitude <= 1e4 x array extent, boundary extent <= 1e5): hvsrpy closes unbounded cells with far points at a fixed radius of 1e6",
-    "weights compared at 1e-8 + 50*eps*1e6/extent (fixed far-point radius) + 16*eps*M^2/(d_min*extent) (conditioning of circumcentres for coordinate magnitude M and smallest sensor separation d_min); invariances at 1e-7 + 4x that",
+    "weights compared at 1e-8 + 50*eps*1e6/extent (fixed far-point radius) + 64*eps*M^2/(d_min*extent) (conditioning of circumcentres for coordinate magnitude M and smallest sensor separation d_min; layouts with eps*M^2/d_min^2 > 1e-2 are not resolvable in double precision and are skipped); invariances at 1e-7 + 4x that",
 ]
 NOT_REACHED = ["fewer than four sensors inside the boundary", "coordinates beyond 1e4 x the array extent"]
 BUDGET = {"quick": dict(cases=2000, seconds=60, shards=4),
@@ -42,6 +43,33 @@ def degenerate_retained(pts, idx):
         return True
     sv = np.linalg.svd(q - q.mean(axis=0), compute_uv=False)
     return bool(sv[1] <= 1e-5 * max(sv[0], 1e-300))
+
+
+def closing_radius_mechanism(*retained_sets):
+    """hvsrpy closes an unbounded Voronoi cell with far points at a FIXED distance of 1e6 from the cell's finite vertex.  The
+    cell of an outer sensor of a thin (nearly collinear) array is almost a half-plane: its two rays leave the one finite vertex
+    in nearly opposite directions, and the polygon (vertex, far point, far point) is a sliver whose depth is only
+    1e6 x (half the angle between the rays).  When that depth is less than the reach of the site beyond the sensor, part of
+    the cell is cut off - whether it is depends on the scale of the coordinates.  Names that mechanism in a witness
+    (known_findings.json lists it) for arrays whose retained sensors lie within 2 % of a straight line; 'other' otherwise."""
+    for q in retained_sets:
+        q = np.asarray(q, float)
+        if len(q) >= 3:
+            sv = np.linalg.svd(q - q.mean(axis=0), compute_uv=False)
+            if sv[1] <= 0.02 * max(sv[0], 1e-300):
+                return "thin-array-outer-cells-closed-at-a-fixed-distance"
+    return "other"
+
+
+def resolvable(pts, idx, boundary):
+    """Delaunay / Voronoi codes work with the lifted coordinate x^2+y^2, one ulp of which is eps*M^2 for coordinate
+    magnitude M.  When that is no longer small against d^2 (d = smallest separation of two retained sensors) the bisector
+    between the two closest sensors is not determined by the input in double precision: such layouts (separation over
+    coordinate magnitude below about 1e-7) are outside what any implementation can resolve, and are not judged."""
+    q = np.asarray(pts, float)[list(idx)]
+    M = float(max(np.max(np.abs(np.asarray(boundary, float))), np.max(np.abs(q))))
+    dmin = min(float(np.min(np.hypot(*(q[i] - np.delete(q, i, axis=0)).T))) for i in range(len(q)))
+    return 2.2e-16 * M * M / max(dmin * dmin, 1e-300) <= 1e-2
 
 
 def error_info(e, pts, idx):
@@ -123,11 +151,24 @@ def fam_layout(ctx, rng):
     scale = float(rng.choice([1e-2, 1.0, 10.0, 1e3]))
     B = (boundary + offset) * scale
     P = (pts + offset) * scale
+    if ctx._idx is not None and ctx._idx >= 0 and ctx._idx % 250 == 41:
+        # the thin five-sensor array (sensor spacing ~ 0.4-1.7 km, 0.5 % off a straight line) on which the thorough sweep
+        # found weights that do not sum to one (see known_findings.json): kept as a fixed witness
+        import json
+        with open(os.path.join(os.path.dirname(os.path.dirname(os.path.abspath(__file__))), "data", "c14_thin_array_witness.json")) as fh:
+            wit = json.load(fh)
+        P = np.array([[float.fromhex(v) for v in row] for row in wit["sensors"]])
+        B = np.array([[float.fromhex(v) for v in row] for row in wit["boundary"]])
+        cls, offset, scale = "thin-array-witness", np.zeros(2), 1.0
+        ctx.count("thin_array_witness_cases")
     info = dict(layout=cls, n=int(len(P)), hull_vertices=hk, offset=offset.tolist(), scale=scale)
     ctx.describe(**info, sensors=P[:6], boundary=B[:6])
     want, idx, amb = MV.weights(P, B)
     if amb or len(idx) < 4:
         ctx.count("ambiguous_skipped" if amb else "fewer_than_four_inside")
+        return
+    if not resolvable(P, idx, B):
+        ctx.count("layouts_not_resolvable_in_double_precision_skipped")
         return
     try:
         Pa, Ba = (P.tolist(), B.tolist()) if rng.random() < 0.3 else (P, B)      # nested lists or arrays
@@ -154,23 +195,24 @@ def fam_layout(ctx, rng):
     dmin = min(float(np.min(np.hypot(*(Pin[i] - np.delete(Pin, i, axis=0)).T))) for i in range(len(Pin)))
     if cls == "grid":
         dmin = min(dmin, 1e-4 * scale)      # nearly co-circular quadruples: the jitter, not the spacing, conditions the vertices
-    tol = 1e-8 + 50 * (1e6 / ext) * 2.2e-16 + 16 * 2.2e-16 * M * M / (max(dmin, 1e-300) * ext)
+    tol = 1e-8 + 50 * (1e6 / ext) * 2.2e-16 + 64 * 2.2e-16 * M * M / (max(dmin, 1e-300) * ext)
     info["tolerance"] = tol
     ctx.check(list(ind) == list(idx), "retained-indices", "returned indices are not the sensors strictly inside the boundary",
               got=list(ind)[:20], want=idx[:20], **info)
     if list(ind) != list(idx):
         return
+    mech = closing_radius_mechanism(P[idx])
     ctx.check(bool(np.all(w >= -1e-12)) and abs(w.sum() - 1) <= 1e-9, "weights-nonnegative-sum-to-one",
-              "weights negative or not summing to one", total=float(w.sum()), minimum=float(w.min()), **info)
+              "weights negative or not summing to one", total=float(w.sum()), minimum=float(w.min()), mechanism=mech, **info)
     ctx.check(w.shape == want.shape and bool(np.all(np.abs(w - want) <= tol)), "weights-equal-area-fractions",
               "a weight differs from the fraction of the boundary's convex region nearest to that sensor",
-              worst=float(np.max(np.abs(w - want))) if w.shape == want.shape else None, got=w[:8], want=want[:8], **info)
+              worst=float(np.max(np.abs(w - want))) if w.shape == want.shape else None, got=w[:8], want=want[:8], mechanism=mech, **info)
     # bounded_voronoi regions: polygon areas give the same weights
     regs, ind2 = hvsrpy.HvsrSpatial(P).bounded_voronoi(B)
     tot = MV.area(MV.convex_hull(B))
     a2 = np.array([abs(MV.area(np.asarray(r))) for r in regs]) / tot
     ctx.check(list(ind2) == list(idx) and bool(np.all(np.abs(a2 - want) <= tol)), "bounded-voronoi-regions",
-              "bounded_voronoi regions do not have the nearest-sensor areas", **info)
+              "bounded_voronoi regions do not have the nearest-sensor areas", mechanism=mech, **info)
     # invariances on the real code
     perm = rng.permutation(len(P))
     wp, ip = hvsrpy.HvsrSpatial(P[perm]).spatial_weights(B[rng.permutation(len(B))])
@@ -183,7 +225,8 @@ def fam_layout(ctx, rng):
     okt = list(it) == list(idx) and bool(np.all(np.abs(np.asarray(wt) - w) <= 1e-7 + 4 * tol))
     oks = list(is_) == list(idx) and bool(np.all(np.abs(np.asarray(ws) - w) <= 1e-7 + 4 * tol))
     ctx.check(okp and okt and oks, "permutation-translation-scaling-invariant", "weights change under permutation / translation / scaling",
-              permutation_ok=okp, translation_ok=okt, scaling_ok=oks, **info)
+              permutation_ok=okp, translation_ok=okt, scaling_ok=oks,
+              mechanism=closing_radius_mechanism(P[idx], (P + t)[idx], (P * s2)[idx]), **info)
     if len(idx) >= 5 and np.ptp(w) > 1e-6:
         ctx.nontrivial([cls, len(P), hk, [round(float(o), 3) for o in offset], scale])
     ctx.state([cls, hk, float(np.max(np.abs(offset))), scale])
@@ -309,6 +352,9 @@ def fam_object_reuse(ctx, rng):
         want, idx, amb = MV.weights(pts, B)
         if amb or len(idx) < 4:
             ctx.count("ambiguous_skipped" if amb else "fewer_than_four_inside")
+            continue
+        if not resolvable(pts, idx, B):
+            ctx.count("layouts_not_resolvable_in_double_precision_skipped")
             continue
         seq.append(kind)
         info = dict(layout=cls, n=int(len(pts)), step=step, boundary_kind=kind, sequence=list(seq))
